@@ -787,8 +787,8 @@ def gen_case(rng, tier="quick"):
     return case
 
 
-def shapes():
-    """systematic part: every single-field and two-field combination of the spellings over A -> B,
+def shapes(maxk=2):
+    """systematic part: every combination of up to `maxk` annotations out of 9 spellings of A -> B,
     both definition orders, every mode"""
     R = lambda q=True: {"t": "ref", "n": "B", "q": q}  # noqa: E731
     mk = {
@@ -805,6 +805,8 @@ def shapes():
     for mode in ({}, {"future": True}, {"scope": "function"}, {"local": True}, {"kind": "dataclass"}):
         for order in (["A", "B"], ["B", "A"]):
             combos = [[k] for k in keys] + [[a, b] for a in keys for b in keys if a != b]
+            if maxk >= 3 and mode in ({}, {"local": True}):
+                combos += [[a, b, c] for a in keys for b in keys for c in keys if len({a, b, c}) == 3]
             for combo in combos:
                 direct_ok = order[0] == "B" or mode.get("future")
                 for q in ([True, False] if direct_ok else [True]):
@@ -837,14 +839,13 @@ class C17(Check):
         "ForwardRef object identity (which quoted leaves typing memoises into one object) is read off the real typing module per case; typing._eval_type is abstracted to 'every mentioned name is visible'",
         "inputs stay in the fragment where the leaf conversions are unambiguous (ints, digit strings, non-empty mappings, lists); the theorem holds for every leaf converter",
     ]
-    budget = {"quick": 700, "thorough": 12000}
-    search_budget = {"quick": 1500, "thorough": 15000}
+    budget = {"quick": 5000, "thorough": 80000}
+    search_budget = {"quick": 3000, "thorough": 20000}
 
     def cases(self, tier, rng, n):
         out = []
         if tier != "search":
-            sh = shapes()
-            out += sh if tier == "thorough" else [sh[i] for i in range(0, len(sh), 5)]
+            out += shapes(3 if tier == "thorough" else 2)
         out += [gen_case(rng, "thorough" if tier == "thorough" else "quick") for _ in range(n)]
         return out
 
@@ -970,6 +971,14 @@ class C17(Check):
                 if any(not r.get("q") and r["n"] not in defined for r in refs_of(t)):
                     return False
         return True
+
+    def finish_evidence(self, ev, tier):
+        ev["coverage"]["exhaustive"] = False
+        ev["coverage"]["exhaustive_part"] = (
+            "every combination of <= %d annotations out of 9 spellings (bare/quoted leaf, List, Dict, Optional, Tuple, "
+            "Union, List[Optional], Optional[List], whole string) of a reference A->B x {module, future, function scope, "
+            "factory-local, dataclass} x both definition orders" % (3 if tier == "thorough" else 2))
+        ev["coverage"]["unmodelled"] = "programs with inheritance go through the spec sweep only (Lean model has no base classes)"
 
     def reproduce(self, case):
         return (f"cat > /tmp/c17_repro.py <<'EOF'\nimport sys; sys.path.insert(0, {str(REPO)!r}); sys.path.insert(0, '.')\n"
